@@ -191,7 +191,7 @@ class StmtMixin:
             d = t.sort()
             ks = d.keys(lift(v))
             dom = d.dom(lift(v))
-            models.dict_wf(st, t, lift(v))
+            models.dict_wf(st, t, lift(v), self)
             return IterInfo(
                 "indexed", n=z3.Length(ks), item=lambda i: Val(t.k, ks[i]),
                 facts=lambda i: [z3.Select(dom, ks[i])], seqval=Val(T.List(t.k), ks),
@@ -486,15 +486,28 @@ class StmtMixin:
         kt = ke.ty
         y = fresh(kt, "img")
         passing = z3.And(guard, *conds)
-        dom = z3.Lambda([y], z3.Exists([i], z3.And(passing, lift(ke) == y)))
+        kterm = lift(ke)
+
+        def at(term, idx):
+            return z3.substitute(term, (i, idx))
+
+        def in_dom(yy):
+            return z3.Exists([i], z3.And(passing, kterm == yy))
+
+        dom = z3.Lambda([y], in_dom(y))
         st.assume((dom == z3.K(kt.sort(), z3.BoolVal(False))) == z3.Not(z3.Exists([i], passing)))
         if kind == "set":
             return Val(T.Set(kt), dom)
+        # last(y): the LAST passing position whose key is y.  Stated per position (no quantifier over keys):
+        # every passing position i0 is followed (or equalled) by last(key(i0)), a passing position with the same key.
         last = z3.Function(fresh_name("lastpos"), kt.sort(), z3.IntSort())
+        i0 = z3.Int(fresh_name("cp"))
+        li = last(at(kterm, i0))
+        st.assume(z3.ForAll([i0], z3.Implies(at(passing, i0), z3.And(at(passing, li), at(kterm, li) == at(kterm, i0), i0 <= li)), patterns=[li]))
+        # the same, keyed by the result's keys (the form that goals about `k in result` instantiate)
         ly = last(y)
-        at_last = z3.substitute(z3.And(passing, lift(ke) == y), (i, ly))
-        st.assume(z3.ForAll([y], z3.Implies(z3.Select(dom, y), z3.And(at_last, z3.ForAll([i], z3.Implies(z3.And(passing, lift(ke) == y), i <= ly))))))
-        mp = z3.Lambda([y], z3.substitute(lift(ve), (i, ly)))
+        st.assume(z3.ForAll([y], z3.Implies(z3.Select(dom, y), z3.And(at(passing, ly), at(kterm, ly) == y))))
+        mp = z3.Lambda([y], at(lift(ve), last(y)))
         rt = T.Dict(kt, ve.ty)
         ks = fresh(T.List(kt), "keys")
         y2 = fresh(kt, "y")
